@@ -201,8 +201,9 @@ impl TransactionOutput {
         ensures r.address == *address, r.amount == *amount, r.plutus_data is None, r.script_ref is None { unimplemented!() }
 }
 impl TransactionBuilder {
+    /// (one line delegating to the input builder; the input builder after the call is `with_regular`: unit tx_inputs proves what it stores)
     #[verifier::external_body] pub fn add_regular_input(&mut self, address: &Address, input: &TransactionInput, amount: &Value) -> (r: Result<(), JsError>)
-        ensures final(self).fee_request == old(self).fee_request { unimplemented!() }
+        ensures r is Ok ==> *final(self) == (TransactionBuilder { inputs: old(self).inputs.with_regular(*address, *input, *amount), ..*old(self) }), r is Err ==> *final(self) == *old(self) { unimplemented!() }
     // the balancing routine itself (input selection + change) is NOT under contract: nothing is assumed about what it does to the builder
     #[verifier::external_body] pub fn add_inputs_from_and_change(&mut self, inputs: &TransactionUnspentOutputs, strategy: CoinSelectionStrategyCIP2, change_config: &ChangeConfig) -> (r: Result<bool, JsError>)
         ensures final(self).collateral == old(self).collateral, final(self).config == old(self).config { unimplemented!() }
@@ -246,4 +247,8 @@ pub proof fn lemma_sum_mono(s: Seq<Value>, i: int)
         lemma_sum_mono(s, i + 1);
         lemma_sum_take_last(s, i);
     } else { assert(s.take(i) =~= s); }
+}
+impl TxInputsBuilder {
+    /// the input builder after a regular input was added
+    pub uninterp spec fn with_regular(&self, address: Address, input: TransactionInput, amount: Value) -> TxInputsBuilder;
 }
